@@ -169,10 +169,18 @@ def judge_matching(T, thickness, valid, pairs, voxel, max_nm, src_mask_full, tgt
     return out
 
 
-def judge_candidates(T, match_distances, match_indices, match_counts, capacity):
-    """Candidate lists written by the numba kernel vs the admissible set (as sets per source). -> None or witness"""
+def judge_candidates(T, match_distances, match_indices, match_counts, capacity, counts_before=None):
+    """Candidate lists written by the numba kernel vs the admissible set (as sets per source). -> None or witness.
+    A point that is not a source has no admissible pair: its count must be 0 or left as the caller initialised it."""
     md = np.asarray(match_distances); mi = np.asarray(match_indices); mc = np.asarray(match_counts)
     rtol = 1e-12 if md.dtype == np.float64 else 1e-6
+    if counts_before is not None:
+        non = np.ones(T.n, dtype=bool); non[T.src] = False
+        badn = non & (mc != 0) & (mc != np.asarray(counts_before))
+        if badn.any():
+            k = int(np.flatnonzero(badn)[0])
+            return {"what": "candidates listed for a point that is not a source", "point": k, "count": int(mc[k]),
+                    "count_before_call": int(np.asarray(counts_before)[k]), "n_such_points": int(badn.sum())}
     for a, s in enumerate(T.src.tolist()):
         exp = T.tgt[T.A[a]]
         c = int(mc[s])
